@@ -15,8 +15,10 @@ package schedh
 
 import (
 	"bytes"
+	"encoding/binary"
 	"fmt"
 	"io"
+	"net"
 	"os"
 	"sort"
 	"strings"
@@ -24,10 +26,12 @@ import (
 	"time"
 
 	"github.com/andres-erbsen/clock"
+	"github.com/golang/protobuf/proto"
 	"github.com/uber-go/tally"
 	"github.com/willf/bitset"
 
 	"github.com/uber/kraken/core"
+	"github.com/uber/kraken/gen/go/proto/p2p"
 	"github.com/uber/kraken/lib/store"
 	"github.com/uber/kraken/lib/torrent/scheduler"
 	"github.com/uber/kraken/lib/torrent/scheduler/conn"
@@ -72,6 +76,118 @@ func (f *fakeMessages) Close() {
 }
 func (f *fakeMessages) isClosed() bool { f.mu.Lock(); defer f.mu.Unlock(); return f.closed }
 
+// remotePeer is the far end of a network connection (net.Pipe) that a remote
+// peer OPENS to the scheduler under test: it speaks kraken's wire protocol
+// (4-byte length + p2p.Message, piece payload bytes after a PIECE_PAYLOAD
+// message), sends the opening handshake, reads the scheduler's handshake reply
+// and then discards whatever the scheduler sends (piece requests, complete).
+// The scheduler side of the pipe goes through kraken's own accept path
+// (VerifIncoming = listenLoop's body), so the torrent control such a connection
+// creates is the one addIncomingConn builds (localRequest=false).
+type remotePeer struct {
+	nc net.Conn
+	id core.PeerID
+	// frames to send, written by ONE goroutine: two writers on a net.Pipe would
+	// queue on its mutex, which is not a durable block for synctest
+	out chan frame
+
+	mu          sync.Mutex
+	established bool           // the scheduler's handshake reply has been read
+	have        *bitset.BitSet // the scheduler's bitfield in that reply
+	closed      bool           // the scheduler closed the connection
+}
+
+type frame struct {
+	m       *p2p.Message
+	payload []byte
+}
+
+func writeFrame(nc net.Conn, m *p2p.Message, payload []byte) error {
+	data, err := proto.Marshal(m)
+	if err != nil {
+		return err
+	}
+	var l [4]byte
+	binary.BigEndian.PutUint32(l[:], uint32(len(data)))
+	if _, err := nc.Write(append(l[:], data...)); err != nil {
+		return err
+	}
+	if payload != nil {
+		_, err = nc.Write(payload)
+	}
+	return err
+}
+
+func readFrame(nc net.Conn) (*p2p.Message, error) {
+	var l [4]byte
+	if _, err := io.ReadFull(nc, l[:]); err != nil {
+		return nil, err
+	}
+	data := make([]byte, binary.BigEndian.Uint32(l[:]))
+	if _, err := io.ReadFull(nc, data); err != nil {
+		return nil, err
+	}
+	m := new(p2p.Message)
+	if err := proto.Unmarshal(data, m); err != nil {
+		return nil, err
+	}
+	if m.Type == p2p.Message_PIECE_PAYLOAD && m.PiecePayload != nil {
+		if _, err := io.ReadFull(nc, make([]byte, m.PiecePayload.Length)); err != nil {
+			return nil, err
+		}
+	}
+	return m, nil
+}
+
+// run sends the opening handshake (a seeder: every bit set) and reads until the
+// connection is closed.
+func (r *remotePeer) run(namespace string, mi *core.MetaInfo) {
+	defer func() {
+		r.mu.Lock()
+		r.closed = true
+		r.mu.Unlock()
+	}()
+	b, err := bitset.New(uint(mi.NumPieces())).Complement().MarshalBinary()
+	if err != nil {
+		return
+	}
+	hs := &p2p.Message{Type: p2p.Message_BITFIELD, Bitfield: &p2p.BitfieldMessage{
+		PeerID: r.id.String(), Name: mi.Digest().Hex(), InfoHash: mi.InfoHash().String(),
+		BitfieldBytes: b, Namespace: namespace,
+	}}
+	if writeFrame(r.nc, hs, nil) != nil {
+		return
+	}
+	go func() {
+		for f := range r.out {
+			if writeFrame(r.nc, f.m, f.payload) != nil {
+				return
+			}
+		}
+	}()
+	for {
+		m, err := readFrame(r.nc)
+		if err != nil {
+			return
+		}
+		if m.Type == p2p.Message_BITFIELD && m.Bitfield != nil {
+			have := bitset.New(0)
+			if have.UnmarshalBinary(m.Bitfield.BitfieldBytes) != nil {
+				return
+			}
+			r.mu.Lock()
+			r.established, r.have = true, have
+			r.mu.Unlock()
+		}
+	}
+}
+
+func (r *remotePeer) state() (established, closed bool, have *bitset.BitSet) {
+	r.mu.Lock()
+	defer r.mu.Unlock()
+	return r.established, r.closed, r.have
+}
+
 type Scenario struct {
 	Name      string
 	Downloads int
@@ -79,6 +195,16 @@ type Scenario struct {
 	Tick      bool
 	Shutdown  bool
 	Bound     int
+	// Start-state dimension (C17). Pre = number of pieces of the blob that are
+	// already on disk when the scheduler starts with an empty memory (what an
+	// agent restart / Reload leaves behind; Pre = all pieces: the blob is in the
+	// cache). Incoming = the seeding peer is not attached by the harness to an
+	// existing dispatcher but OPENS a connection itself, at any point of the
+	// history (also before the first Download), through kraken's real accept
+	// path: a torrent that is on disk but not in memory is then revived by
+	// addIncomingConn (localRequest=false) and a later Download joins it.
+	Pre      int
+	Incoming bool
 }
 
 func Scenarios(thorough bool) []Scenario {
@@ -93,6 +219,44 @@ func Scenarios(thorough bool) []Scenario {
 		sc = append(sc,
 			Scenario{Name: "2 downloads + tick + shutdown", Downloads: 2, Tick: true, Shutdown: true, Bound: 4},
 			Scenario{Name: "2 downloads + remove + tick + shutdown (deep)", Downloads: 2, Remove: true, Tick: true, Shutdown: true, Bound: 4},
+		)
+	}
+	return sc
+}
+
+// StartStateScenarios are the C17 scenarios of the start-state dimension: every
+// number of pieces already on disk x a remote peer opening a connection at any
+// point x 1-2 Download calls x removal / idle tick / shutdown.
+func StartStateScenarios(thorough bool) []Scenario {
+	var sc []Scenario
+	name := func(what string, pre int) string {
+		return fmt.Sprintf("incoming peer + %s (%d of 2 pieces on disk)", what, pre)
+	}
+	for pre := 0; pre <= 2; pre++ {
+		sc = append(sc, Scenario{Name: name("1 download", pre), Downloads: 1, Incoming: true, Pre: pre, Bound: 99})
+	}
+	// quick: every order within 3 deviations from the default order; thorough: every order
+	b := 3
+	if thorough {
+		b = 99
+	}
+	sc = append(sc,
+		Scenario{Name: name("1 download + remove", 1), Downloads: 1, Incoming: true, Pre: 1, Remove: true, Bound: b},
+		Scenario{Name: name("1 download + idle tick", 1), Downloads: 1, Incoming: true, Pre: 1, Tick: true, Bound: b},
+		Scenario{Name: name("1 download + shutdown", 1), Downloads: 1, Incoming: true, Pre: 1, Shutdown: true, Bound: b},
+		Scenario{Name: name("2 downloads", 1), Downloads: 2, Incoming: true, Pre: 1, Bound: min(b, 4)},
+	)
+	if thorough {
+		for _, pre := range []int{0, 2} {
+			sc = append(sc,
+				Scenario{Name: name("1 download + remove", pre), Downloads: 1, Incoming: true, Pre: pre, Remove: true, Bound: 99},
+				Scenario{Name: name("1 download + idle tick", pre), Downloads: 1, Incoming: true, Pre: pre, Tick: true, Bound: 99},
+				Scenario{Name: name("1 download + shutdown", pre), Downloads: 1, Incoming: true, Pre: pre, Shutdown: true, Bound: 99},
+				Scenario{Name: name("2 downloads", pre), Downloads: 2, Incoming: true, Pre: pre, Bound: 3},
+			)
+		}
+		sc = append(sc,
+			Scenario{Name: name("2 downloads + remove + tick + shutdown", 1), Downloads: 2, Incoming: true, Pre: 1, Remove: true, Tick: true, Shutdown: true, Bound: 3},
 		)
 	}
 	return sc
@@ -121,6 +285,20 @@ func Harness(sc Scenario) *vrt.Harness {
 		tc := metainfoclient.NewTestClient()
 		tc.Upload(mi)
 		ta := agentstorage.NewTorrentArchive(tally.NoopScope, cads, tc)
+		pieceBytes := func(k int) []byte { return blob[k*pieceLen : min((k+1)*pieceLen, len(blob))] }
+		if sc.Pre > 0 {
+			// start state: the disk image a stopped scheduler leaves behind, produced
+			// through the real archive (download file + metadata, or the cached blob)
+			old, err := ta.CreateTorrent("ns", dg)
+			if err != nil {
+				return "", "HARNESS: " + err.Error()
+			}
+			for k := 0; k < sc.Pre && k < mi.NumPieces(); k++ {
+				if err := old.WritePiece(piecereader.NewBuffer(pieceBytes(k)), k); err != nil {
+					return "", "HARNESS: " + err.Error()
+				}
+			}
+		}
 		cfg := scheduler.Config{
 			SeederTTI: time.Minute, LeecherTTI: time.Minute, DisablePreemption: true,
 			Conn: conn.ConfigFixture(), TorrentLog: klog.Config{Disable: true}, Log: klog.Config{Disable: true},
@@ -157,6 +335,7 @@ func Harness(sc Scenario) *vrt.Harness {
 			mu.Unlock()
 		}
 		var fm *fakeMessages
+		var rp *remotePeer
 		delivered := map[int]bool{}
 		removeUsed, tickUsed, shutdownUsed := false, false, false
 		nPieces := mi.NumPieces()
@@ -205,7 +384,31 @@ func Harness(sc Scenario) *vrt.Harness {
 					}})
 				}
 			}
-			if d := v.Dispatcher(dg); d != nil && fm == nil && !d.Complete() {
+			if sc.Incoming && rp == nil {
+				a = append(a, e1q.Action{Label: "remote peer opens a connection", Run: func() {
+					local, remote := net.Pipe()
+					rp = &remotePeer{nc: remote, id: core.PeerIDFixture(), out: make(chan frame, 16)}
+					go v.VerifIncoming(local)
+					go rp.run("ns", mi)
+				}})
+			}
+			if rp != nil {
+				if est, closed, have := rp.state(); est && !closed {
+					for k := 0; k < nPieces; k++ {
+						k := k
+						if !delivered[k] && !have.Test(uint(k)) {
+							a = append(a, e1q.Action{Label: fmt.Sprintf("remote peer delivers piece %d", k), Run: func() {
+								delivered[k] = true
+								pb := pieceBytes(k)
+								msg := conn.NewPiecePayloadMessage(k, piecereader.NewBuffer(pb)).Message
+								rp.out <- frame{msg, pb}
+							}})
+							break // pieces in order
+						}
+					}
+				}
+			}
+			if d := v.Dispatcher(dg); !sc.Incoming && d != nil && fm == nil && !d.Complete() {
 				a = append(a, e1q.Action{Label: "seeder connects", Run: func() {
 					fm = &fakeMessages{recv: make(chan *conn.Message)}
 					b := bitset.New(uint(nPieces)).Complement()
@@ -231,7 +434,7 @@ func Harness(sc Scenario) *vrt.Harness {
 					}
 				}
 			}
-			anyStarted := started[0]
+			anyStarted := started[0] || (sc.Incoming && rp != nil)
 			if sc.Remove && !removeUsed && anyStarted {
 				a = append(a, e1q.Action{Label: "call RemoveTorrent", Run: func() { removeUsed = true; go v.RemoveTorrent(dg) }})
 			}
@@ -257,6 +460,10 @@ func Harness(sc Scenario) *vrt.Harness {
 		}
 		if fm != nil {
 			fm.Close()
+		}
+		if rp != nil {
+			rp.nc.Close()
+			close(rp.out)
 		}
 		for observe(); c.Step(nil); observe() {
 		}
@@ -289,6 +496,14 @@ func Harness(sc Scenario) *vrt.Harness {
 			}
 		}
 		vio = append(vio, atReturn...)
+		if p := v.Loop.DidPanic(); p != "" {
+			vio = append(vio, "event loop panicked while applying "+p)
+		} else if !v.Stopped() {
+			// "exactly one result": the waiter channels hold one result; an event that
+			// sends a second one blocks the event loop for good, so the shutdown sent
+			// in the closing phase is never applied.
+			vio = append(vio, "event loop blocked: the shutdown event was never applied (a second result sent to a request that already has one)")
+		}
 		for i := range vio {
 			vio[i] = "C17|" + vio[i]
 		}
